@@ -1,5 +1,5 @@
-(* Proofs for C06: the invariant of the canvas cache and its preservation by every operation.
-   Statements of the property theorems are in Properties/C06.v. *)
+(* Basics shared by the C06 proofs: ranked render bodies, heap lemmas, growing states, fuel of the cache-less render.
+   The invariant and its preservation are in Proofs/CacheGC.v; the statements in Properties/C06.v. *)
 From Coq Require Import ZArith List Bool Lia.
 Import ListNotations.
 From Urwid Require Import PyBase Cache CacheFacts.
@@ -38,30 +38,6 @@ Section Proofs.
   Definition cached (st : state) (cv : canvas) : Prop :=
     In cv (heap st) /\ lookup2 (cc st) (c_w cv) (c_k cv) = Some (c_id cv).
 
-  (* the children a cached canvas of widget w holds are exactly the canvases its render body, run
-     under the CURRENT version of w, asks for; each is itself cached and lists w as a dependant *)
-  Fixpoint trace (st : state) (w : widget) (ids : list cid) (p : prog C) : Prop :=
-    match ids, p with
-    | [], Ret _ => True
-    | i :: r, Ask x k cont =>
-      exists cx, In cx (heap st) /\ c_id cx = i /\ c_w cx = x /\ c_k cx = k /\
-                 lookup2 (cc st) x k = Some i /\ In w (deps_of (cc st) x) /\
-                 trace st w r (cont (c_content cx))
-    | _, _ => False
-    end.
-
-  Record Inv (st : state) : Prop := {
-    inv_live : forall w k c, lookup2 (cc st) w k = Some c ->
-                 exists cv, In cv (heap st) /\ c_id cv = c /\ c_w cv = w /\ c_k cv = k;
-    inv_refs : RefsOK (cc st);
-    inv_ids : forall cv, In cv (heap st) -> c_id cv < next st;
-    inv_nodup : NoDup (map c_id (heap st));
-    (* Fresh *)
-    inv_fresh : forall cv, cached st cv ->
-                 forall n x, fresh (ver st) n (c_w cv) (c_k cv) = Some x -> c_content cv = x;
-    (* DepsComplete *)
-    inv_trace : forall cv, cached st cv ->
-                 trace st (c_w cv) (c_children cv) (body (c_w cv) (version (ver st) (c_w cv)) (c_k cv)) }.
 
   (* ---------- the heap ---------- *)
   Lemma find_canvas_some h r cv : find_canvas C h r = Some cv -> In cv h /\ c_id cv = r.
@@ -106,28 +82,6 @@ Section Proofs.
     apply NI. rewrite <- E. apply in_map. tauto.
   Qed.
 
-  (* ---------- fetch ---------- *)
-  Lemma fetch_some st w k cv : Inv st -> fetch st w k = Some cv -> cached st cv /\ c_w cv = w /\ c_k cv = k.
-  Proof.
-    intros I H. unfold Cache.fetch in H.
-    destruct (alookup (widgets (cc st)) w) as [sizes|] eqn:W; [|discriminate].
-    destruct (alookup sizes k) as [r|] eqn:K; [|discriminate].
-    apply find_canvas_some in H. destruct H as [Hin Hid].
-    assert (L : lookup2 (cc st) w k = Some r) by (unfold lookup2, sizes_of; rewrite W; exact K).
-    destruct (inv_live st I _ _ _ L) as [cv' [I' [E1 [E2 E3]]]].
-    assert (cv = cv') by (eapply heap_unique; eauto using inv_nodup; congruence). subst cv'.
-    unfold cached. subst. auto.
-  Qed.
-
-  Lemma fetch_none st w k : Inv st -> fetch st w k = None -> lookup2 (cc st) w k = None.
-  Proof.
-    intros I H. destruct (lookup2 (cc st) w k) as [r|] eqn:L; [|reflexivity]. exfalso.
-    destruct (inv_live st I _ _ _ L) as [cv [I' [E1 [E2 E3]]]].
-    unfold Cache.fetch in H. unfold lookup2, sizes_of in L.
-    destruct (alookup (widgets (cc st)) w) as [sizes|]; [|cbn in L; discriminate].
-    rewrite L in H. destruct (find_canvas_in _ _ I') as [cv' F]. rewrite E1 in F. congruence.
-  Qed.
-
   (* ---------- growing states: what a render leaves untouched ---------- *)
   Record Ext (a b : state) : Prop := {
     ext_heap : forall cv, In cv (heap a) -> In cv (heap b);
@@ -143,13 +97,6 @@ Section Proofs.
   Lemma cached_ext a b cv : Ext a b -> cached a cv -> cached b cv.
   Proof. intros E [I L]. split; [apply (ext_heap _ _ E)|apply (ext_entries _ _ E)]; assumption. Qed.
 
-  Lemma trace_ext a b w ids p : Ext a b -> trace a w ids p -> trace b w ids p.
-  Proof.
-    intros E. revert p. induction ids as [|i r IH]; intros p; destruct p as [c|x k cont]; cbn [trace]; auto.
-    intros [cx [I [E1 [E2 [E3 [L [D T]]]]]]]. exists cx.
-    repeat split; auto; try (apply (ext_heap _ _ E)); try (apply (ext_entries _ _ E)); try (apply (ext_deps _ _ E)); auto.
-  Qed.
-
   (* ================= rendering through the cache ================= *)
   Hypothesis body_ranked : forall w v k, prog_ranked (rank w) rank (body w v k).
   Hypothesis all_cacheable : forall w, cacheable w = true.
@@ -162,412 +109,9 @@ Section Proofs.
     | _, _ => False
     end.
 
-  Definition render_ok (n : nat) : Prop :=
-    forall st w k cv st', Inv st -> crender n st w k = Some (cv, st') ->
-      Inv st' /\ Ext st st' /\ cached st' cv /\ c_w cv = w /\ c_k cv = k /\ ver st' = ver st /\
-      (forall x, (rank w < rank x)%nat -> alookup (widgets (cc st')) x = alookup (widgets (cc st)) x).
-
-  Lemma run_prog_ok n : render_ok n -> forall r p st c kids st',
-    Inv st -> prog_ranked r rank p -> run_prog (crender n) p st = Some (c, kids, st') ->
-    Inv st' /\ Ext st st' /\ ver st' = ver st /\ Forall (cached st') kids /\ ktrace kids p c /\
-    (forall x, (r <= rank x)%nat -> alookup (widgets (cc st')) x = alookup (widgets (cc st)) x).
-  Proof.
-    intros RO r p. induction p as [c0|x k cont IH]; intros st c kids st' I PR H; cbn [Cache.run_prog] in H.
-    - inversion H. subst. split; [exact I|]. split; [apply Ext_refl|]. repeat split; auto.
-    - destruct (crender n st x k) as [[cx st1]|] eqn:E1; [|discriminate].
-      destruct (run_prog (crender n) (cont (c_content cx)) st1) as [[[c1 kids1] st2]|] eqn:E2; [|discriminate].
-      inversion H. subst c1 kids st2. clear H.
-      destruct PR as [PR1 PR2].
-      destruct (RO _ _ _ _ _ I E1) as [I1 [X1 [C1 [W1 [K1 [V1 R1]]]]]].
-      destruct (IH _ _ _ _ _ I1 (PR2 _) E2) as [I2 [X2 [V2 [F2 [T2 R2]]]]].
-      split; [exact I2|]. split; [eapply Ext_trans; eauto|]. split; [congruence|].
-      split; [constructor; [eapply cached_ext; eauto|exact F2]|].
-      split; [cbn [ktrace]; auto|].
-      intros y Hy. rewrite R2 by exact Hy. apply R1. lia.
-  Qed.
-
-  Lemma ktrace_fresh st kids p c m x :
-    Inv st -> Forall (cached st) kids -> ktrace kids p c ->
-    run_fresh C (fresh (ver st) m) p = Some x -> x = c.
-  Proof.
-    intros I. revert p. induction kids as [|cx r IH]; intros p F T H; destruct p as [c0|y k cont]; cbn [ktrace] in T; try contradiction.
-    - cbn in H. congruence.
-    - cbn [run_fresh] in H. destruct T as [E1 [E2 T]]. inversion F as [|? ? Cx Fr]. subst.
-      destruct (fresh (ver st) m (c_w cx) (c_k cx)) as [y|] eqn:Fy; [|discriminate].
-      rewrite <- (inv_fresh st I cx Cx _ _ Fy) in H. eapply IH; eauto.
-  Qed.
-
-  Lemma ktrace_trace st1 st2 w kids p c :
-    Ext st1 st2 -> Forall (cached st1) kids -> ktrace kids p c ->
-    (forall cx, In cx kids -> In w (deps_of (cc st2) (c_w cx))) ->
-    trace st2 w (map c_id kids) p.
-  Proof.
-    intros X. revert p. induction kids as [|cx r IH]; intros p F T D; destruct p as [c0|y k cont]; cbn [ktrace] in T; try contradiction; cbn [map trace]; auto.
-    destruct T as [E1 [E2 T]]. inversion F as [|? ? Cx Fr]. subst.
-    exists cx. destruct (cached_ext _ _ _ X Cx) as [Hin Hl].
-    repeat split; auto.
-    - apply D. left. reflexivity.
-    - apply IH; auto. intros c' I'. apply D. right. exact I'.
-  Qed.
-
-  Lemma cached_amem st cv : cached st cv -> amem (widgets (cc st)) (c_w cv) = true.
-  Proof.
-    intros [_ L]. apply lookup2_has in L. unfold amem. destruct (alookup (widgets (cc st)) (c_w cv)); [reflexivity|contradiction].
-  Qed.
-
-  Lemma crender_ok : forall n, render_ok n.
-  Proof.
-    induction n as [|m IHm]; intros st w k cv st' I H; [discriminate|].
-    cbn [Cache.crender] in H.
-    destruct (fetch st w k) as [cv0|] eqn:F.
-    - inversion H. subst cv0 st'. destruct (fetch_some _ _ _ _ I F) as [Cc [Ew Ek]].
-      split; [exact I|]. split; [apply Ext_refl|]. repeat split; auto; apply Cc.
-    - destruct (run_prog (crender m) (body w (version (ver st) w) k) st) as [[[c kids] st1]|] eqn:R; [|discriminate].
-      inversion H. subst cv st'. clear H.
-      destruct (run_prog_ok m IHm _ _ _ _ _ _ I (body_ranked w _ k) R) as [I1 [X1 [V1 [F1 [T1 R1]]]]].
-      set (cv := Canvas (next st1) w k c (map c_id kids)) in *.
-      assert (Lnone : lookup2 (cc st1) w k = None).
-      { rewrite (lookup2_same_widgets (cc st) (cc st1)); [apply fetch_none; auto|]. apply R1. lia. }
-      assert (HD : forall x, In x (map c_w kids) -> amem (widgets (cc st1)) x = true).
-      { intros x Hx. apply in_map_iff in Hx. destruct Hx as [cx [<- Hx]].
-        apply cached_amem. rewrite Forall_forall in F1. auto. }
-      destruct (store_spec C cacheable (cc st1) cv (map c_w kids) (all_cacheable _) HD) as [S1 [S2 [S3 [S4 [S5 S6]]]]].
-      cbn zeta in *. change (c_w cv) with w in *. change (c_k cv) with k in *. change (c_id cv) with (next st1) in *.
-      set (c2 := store C cacheable (cc st1) cv (map c_w kids)) in *.
-      set (st2 := State c2 (cv :: heap st1) (next st1 + 1) (ver st1)).
-      assert (Hlt : forall cv', In cv' (heap st1) -> c_id cv' < next st1) by (apply inv_ids; exact I1).
-      assert (Lold : forall x y r, lookup2 (cc st1) x y = Some r -> lookup2 c2 x y = Some r).
-      { intros x y r L. rewrite S1. destruct ((x =? w) && (y =? k)) eqn:E; [|exact L].
-        apply andb_true_iff in E. destruct E as [E1 E2]. apply Z.eqb_eq in E1, E2. subst. congruence. }
-      assert (X2 : Ext st1 st2).
-      { split; unfold st2; cbn [heap cc next].
-        - intros a Ha. right. exact Ha.
-        - exact Lold.
-        - exact S3.
-        - lia. }
-      assert (Cold : forall cv', cached st2 cv' -> cv' = cv \/ cached st1 cv').
-      { intros cv' [Hin Hl]. unfold st2 in Hin, Hl. cbn [heap cc] in Hin, Hl. destruct Hin as [<-|Hin]; [left; reflexivity|right].
-        split; [exact Hin|]. rewrite S1 in Hl.
-        destruct ((c_w cv' =? w) && (c_k cv' =? k)); [|exact Hl].
-        inversion Hl as [Hid]. specialize (Hlt _ Hin). lia. }
-      assert (Cnew : cached st2 cv).
-      { split; unfold st2; cbn [heap cc]; [left; reflexivity|]. change (c_w cv) with w. change (c_k cv) with k. change (c_id cv) with (next st1). rewrite S1, !Z.eqb_refl. reflexivity. }
-      assert (I2 : Inv st2).
-      { split; unfold st2; cbn [heap cc next ver].
-        - intros x y r L. rewrite S1 in L. destruct ((x =? w) && (y =? k)) eqn:E.
-          + apply andb_true_iff in E. destruct E as [E1 E2]. apply Z.eqb_eq in E1, E2. subst.
-            inversion L. exists cv. repeat split; auto. left. reflexivity.
-          + destruct (inv_live st1 I1 _ _ _ L) as [cv' [A1 [A2 [A3 A4]]]]. exists cv'. repeat split; auto. right. exact A1.
-        - destruct (inv_refs st1 I1) as [RA RB RN]. split.
-          + intros r x y Hr. rewrite S2 in Hr. destruct (next st1 =? r) eqn:E.
-            * apply Z.eqb_eq in E. subst r. inversion Hr. subst. rewrite S1, !Z.eqb_refl. reflexivity.
-            * apply Lold. apply RA. exact Hr.
-          + intros x y r L. rewrite S1 in L. rewrite S2. destruct ((x =? w) && (y =? k)) eqn:E.
-            * apply andb_true_iff in E. destruct E as [E1 E2]. apply Z.eqb_eq in E1, E2. subst.
-              inversion L. rewrite Z.eqb_refl. reflexivity.
-            * destruct (next st1 =? r) eqn:E3.
-              -- apply Z.eqb_eq in E3. subst r. destruct (inv_live st1 I1 _ _ _ L) as [cv' [A1 [A2 _]]].
-                 specialize (Hlt _ A1). lia.
-              -- apply RB. exact L.
-          + apply S6. exact RN.
-        - intros a [<-|Ha]; [cbn; lia|]. specialize (Hlt _ Ha). lia.
-        - cbn [map c_id]. constructor; [|apply inv_nodup; exact I1].
-          intros Hi. apply in_map_iff in Hi. destruct Hi as [a [Ea Ha]]. specialize (Hlt _ Ha). cbn in Ea. lia.
-        - intros cv' Cc n x Hf. destruct (Cold _ Cc) as [->|Co].
-          + destruct n as [|n0]; [discriminate|]. cbn [Cache.fresh] in Hf.
-            change (c_w cv) with w in Hf. change (c_k cv) with k in Hf. change (c_content cv) with c.
-            rewrite <- V1 in T1. symmetry. exact (ktrace_fresh st1 kids _ c n0 x I1 F1 T1 Hf).
-          + eapply (inv_fresh st1 I1); eauto.
-        - intros cv' Cc. destruct (Cold _ Cc) as [->|Co].
-          + change (c_w cv) with w. change (c_k cv) with k. change (c_children cv) with (map c_id kids).
-            rewrite <- V1 in T1. apply (ktrace_trace st1 st2 w kids _ c X2 F1 T1).
-            intros cx Hx. unfold st2. cbn [cc]. apply S4. apply in_map. exact Hx.
-          + apply (trace_ext st1 st2); [exact X2|]. apply (inv_trace st1 I1). exact Co. }
-      split; [exact I2|]. split; [eapply Ext_trans; eauto|]. split; [exact Cnew|].
-      repeat split; auto.
-      intros x Hx. cbn [cc]. rewrite S5; [apply R1; lia|]. intros ->. lia.
-  Qed.
-
-
   (* ================= Mutate: new own state, then CanvasCache.invalidate ================= *)
   Lemma version_aset vr w v x : version (aset vr w v) x = if w =? x then v else version vr x.
   Proof. unfold version. rewrite alookup_aset. destruct (w =? x); reflexivity. Qed.
-
-  Section Mutate.
-    Variable st : state.
-    Variable w : widget.
-    Variable v : Z.
-    Variable c' : cache.
-    Hypothesis I : Inv st.
-    Hypothesis P : Post (cc st) c'.
-    Hypothesis Wn : alookup (widgets c') w = None.
-    Hypothesis R : RefsOK c'.
-    Let st' := State c' (heap st) (next st) (aset (ver st) w v).
-
-    Lemma mut_entries_sub x y r : lookup2 c' x y = Some r -> lookup2 (cc st) x y = Some r.
-    Proof.
-      intros L. destruct (p_widgets _ _ P x) as [E|E].
-      - rewrite <- (lookup2_same_widgets (cc st) c' x y E). exact L.
-      - apply lookup2_has in L. contradiction.
-    Qed.
-
-    Lemma mut_cached_sub cv : cached st' cv -> cached st cv.
-    Proof. intros [Hin L]. split; [exact Hin|]. apply mut_entries_sub. exact L. Qed.
-
-    Lemma mut_trace w0 : alookup (widgets c') w0 <> None ->
-      forall ids p, trace st w0 ids p -> trace st' w0 ids p.
-    Proof.
-      intros W0. induction ids as [|i r IH]; intros p; destruct p as [c|x k cont]; cbn [trace]; auto.
-      intros [cx [Hin [E1 [E2 [E3 [L [D T]]]]]]]. exists cx.
-      assert (Wx : alookup (widgets c') x = alookup (widgets (cc st)) x).
-      { destruct (p_widgets _ _ P x) as [E|E]; [exact E|]. exfalso. apply W0.
-        apply (p_closed _ _ P x w0); [eapply lookup2_has; eauto|exact E|exact D]. }
-      assert (Lx : lookup2 c' x k = Some i) by (rewrite (lookup2_same_widgets _ _ _ _ Wx); exact L).
-      repeat split; auto.
-      - unfold st'. cbn [cc]. destruct (olz_eq_dec (alookup (deps c') x) (alookup (deps (cc st)) x)) as [E|E].
-        + rewrite (deps_of_same _ _ _ E). exact D.
-        + apply (p_deps_changed _ _ P) in E. apply lookup2_has in Lx. contradiction.
-    Qed.
-
-    Lemma mut_fresh_inner m :
-      (forall cv, cached st' cv -> fresh (ver st') m (c_w cv) (c_k cv) = fresh (ver st) m (c_w cv) (c_k cv)) ->
-      forall w0 ids p, trace st' w0 ids p ->
-        run_fresh C (fresh (ver st') m) p = run_fresh C (fresh (ver st) m) p.
-    Proof.
-      intros IH w0. induction ids as [|i r IHr]; intros p; destruct p as [c|x k cont]; cbn [trace]; try tauto.
-      intros [cx [Hin [E1 [E2 [E3 [L [D T]]]]]]]. cbn [run_fresh].
-      assert (Cx : cached st' cx) by (split; [exact Hin|rewrite E2, E3, E1; exact L]).
-      pose proof (IH cx Cx) as F. rewrite E2, E3 in F. rewrite F.
-      destruct (fresh (ver st) m x k) as [y|] eqn:Fy; [|reflexivity].
-      pose proof (inv_fresh st I cx (mut_cached_sub _ Cx) m y) as Ey. rewrite E2, E3 in Ey. rewrite <- (Ey Fy).
-      apply IHr. exact T.
-    Qed.
-
-    Lemma mut_not_w cv : cached st' cv -> (w =? c_w cv) = false.
-    Proof.
-      intros [_ L]. apply lookup2_has in L. destruct (w =? c_w cv) eqn:E; [|reflexivity].
-      apply Z.eqb_eq in E. subst w. contradiction.
-    Qed.
-
-    Lemma mut_fresh m : forall cv, cached st' cv ->
-      fresh (ver st') m (c_w cv) (c_k cv) = fresh (ver st) m (c_w cv) (c_k cv).
-    Proof.
-      induction m as [|m IH]; intros cv Cc; [reflexivity|].
-      cbn [Cache.fresh]. unfold st' at 2. cbn [ver]. rewrite version_aset, (mut_not_w _ Cc).
-      apply (mut_fresh_inner m IH (c_w cv) (c_children cv)).
-      apply mut_trace; [destruct Cc as [_ L]; eapply lookup2_has; eauto|].
-      apply (inv_trace st I). apply mut_cached_sub. exact Cc.
-    Qed.
-
-    Lemma mutate_inv : Inv st'.
-    Proof.
-      split.
-      - intros x y r L. apply (inv_live st I). apply mut_entries_sub. exact L.
-      - exact R.
-      - apply (inv_ids st I).
-      - apply (inv_nodup st I).
-      - intros cv Cc n x F. rewrite (mut_fresh n cv Cc) in F. eapply (inv_fresh st I); eauto using mut_cached_sub.
-      - intros cv Cc. unfold st' at 2. cbn [ver]. rewrite version_aset, (mut_not_w _ Cc).
-        apply mut_trace; [destruct Cc as [_ L]; eapply lookup2_has; eauto|].
-        apply (inv_trace st I). apply mut_cached_sub. exact Cc.
-    Qed.
-  End Mutate.
-
-
-  (* ================= entries disappear by a complete invalidate cascade, versions unchanged ================= *)
-  Section Shrink.
-    Variable st : state.
-    Variable c' : cache.
-    Hypothesis I : Inv st.
-    Hypothesis P : Post (cc st) c'.
-    Hypothesis R : RefsOK c'.
-    Let st' := State c' (heap st) (next st) (ver st).
-
-    Lemma shr_entries_sub x y r : lookup2 c' x y = Some r -> lookup2 (cc st) x y = Some r.
-    Proof.
-      intros L. destruct (p_widgets _ _ P x) as [E|E].
-      - rewrite <- (lookup2_same_widgets (cc st) c' x y E). exact L.
-      - apply lookup2_has in L. contradiction.
-    Qed.
-
-    Lemma shr_cached_sub cv : cached st' cv -> cached st cv.
-    Proof. intros [Hin L]. split; [exact Hin|]. apply shr_entries_sub. exact L. Qed.
-
-    Lemma shr_trace w0 : alookup (widgets c') w0 <> None ->
-      forall ids p, trace st w0 ids p -> trace st' w0 ids p.
-    Proof.
-      intros W0. induction ids as [|i r IH]; intros p; destruct p as [c|x k cont]; cbn [trace]; auto.
-      intros [cx [Hin [E1 [E2 [E3 [L [D T]]]]]]]. exists cx.
-      assert (Wx : alookup (widgets c') x = alookup (widgets (cc st)) x).
-      { destruct (p_widgets _ _ P x) as [E|E]; [exact E|]. exfalso. apply W0.
-        apply (p_closed _ _ P x w0); [eapply lookup2_has; eauto|exact E|exact D]. }
-      assert (Lx : lookup2 c' x k = Some i) by (rewrite (lookup2_same_widgets _ _ _ _ Wx); exact L).
-      repeat split; auto.
-      - unfold st'. cbn [cc]. destruct (olz_eq_dec (alookup (deps c') x) (alookup (deps (cc st)) x)) as [E|E].
-        + rewrite (deps_of_same _ _ _ E). exact D.
-        + apply (p_deps_changed _ _ P) in E. apply lookup2_has in Lx. contradiction.
-    Qed.
-
-    Lemma shrink_inv : Inv st'.
-    Proof.
-      split.
-      - intros x y r L. apply (inv_live st I). apply shr_entries_sub. exact L.
-      - exact R.
-      - apply (inv_ids st I).
-      - apply (inv_nodup st I).
-      - intros cv Cc. apply (inv_fresh st I). apply shr_cached_sub. exact Cc.
-      - intros cv Cc. apply shr_trace; [destruct Cc as [_ L]; eapply lookup2_has; eauto|].
-        apply (inv_trace st I). apply shr_cached_sub. exact Cc.
-    Qed.
-  End Shrink.
-
-  (* ================= Collect: a canvas nobody references dies, its weakref callback runs ================= *)
-  Lemma collectable_spec st c0 : collectable C st c0 = true ->
-    forall cv, In cv (heap st) -> ~ In c0 (c_children cv).
-  Proof.
-    unfold collectable. intros H cv Hin Hc. apply andb_true_iff in H. destruct H as [_ H].
-    rewrite forallb_forall in H. specialize (H cv Hin). apply negb_true_iff in H.
-    assert (existsb (Z.eqb c0) (c_children cv) = true) as T.
-    { apply existsb_exists. exists c0. split; [exact Hc|apply Z.eqb_refl]. }
-    congruence.
-  Qed.
-
-  Section Collect.
-    Variable st : state.
-    Variable c0 : cid.
-    Variable c' : cache.
-    Hypothesis I : Inv st.
-    Hypothesis NoRef : forall cv, In cv (heap st) -> ~ In c0 (c_children cv).
-    Hypothesis H1 : forall x y r, lookup2 c' x y = Some r -> lookup2 (cc st) x y = Some r /\ r <> c0.
-    Hypothesis H2 : forall x y r, lookup2 (cc st) x y = Some r -> r <> c0 -> lookup2 c' x y = Some r.
-    Hypothesis H3 : forall x, alookup (deps c') x = alookup (deps (cc st)) x \/ alookup (widgets c') x = None.
-    Hypothesis R : RefsOK c'.
-    Let st' := State c' (remove_canvas C (heap st) c0) (next st) (ver st).
-
-    Lemma col_cached_sub cv : cached st' cv -> cached st cv /\ c_id cv <> c0.
-    Proof.
-      intros [Hin L]. unfold st' in Hin. cbn [heap] in Hin. apply in_remove_canvas in Hin.
-      destruct Hin as [Hin Hne]. destruct (H1 _ _ _ L) as [L0 _]. split; [split|]; assumption.
-    Qed.
-
-    Lemma col_trace w0 : forall ids p, (forall i, In i ids -> i <> c0) ->
-      trace st w0 ids p -> trace st' w0 ids p.
-    Proof.
-      induction ids as [|i r IH]; intros p N; destruct p as [c|x k cont]; cbn [trace]; auto.
-      intros [cx [Hin [E1 [E2 [E3 [L [D T]]]]]]]. exists cx.
-      assert (Ni : i <> c0) by (apply N; left; reflexivity).
-      assert (Lx : lookup2 c' x k = Some i) by (apply H2; assumption).
-      repeat split; auto.
-      - unfold st'. cbn [heap]. apply in_remove_canvas. split; [exact Hin|congruence].
-      - unfold st'. cbn [cc]. destruct (H3 x) as [E|E].
-        + rewrite (deps_of_same _ _ _ E). exact D.
-        + apply lookup2_has in Lx. contradiction.
-      - apply IH; [|exact T]. intros j Hj. apply N. right. exact Hj.
-    Qed.
-
-    Lemma collect_inv : Inv st'.
-    Proof.
-      split.
-      - intros x y r L. destruct (H1 _ _ _ L) as [L0 Nr].
-        destruct (inv_live st I _ _ _ L0) as [cv [A1 [A2 [A3 A4]]]]. exists cv.
-        repeat split; auto. unfold st'. cbn [heap]. apply in_remove_canvas. split; [exact A1|congruence].
-      - exact R.
-      - intros cv Hin. unfold st' in Hin. cbn [heap] in Hin. apply in_remove_canvas in Hin.
-        apply (inv_ids st I). tauto.
-      - apply remove_canvas_nodup. apply (inv_nodup st I).
-      - intros cv Cc. destruct (col_cached_sub _ Cc) as [C0 _]. apply (inv_fresh st I). exact C0.
-      - intros cv Cc. destruct (col_cached_sub _ Cc) as [C0 _]. apply col_trace.
-        + intros i Hi ->. destruct C0 as [Hin _]. exact (NoRef _ Hin Hi).
-        + apply (inv_trace st I). exact C0.
-    Qed.
-  End Collect.
-
-  Lemma collect_entry_inv st c0 :
-    Inv st -> collectable C st c0 = true ->
-    Inv (State (cleanup_entry (cc st) c0) (remove_canvas C (heap st) c0) (next st) (ver st)).
-  Proof.
-    intros I Hc. pose proof (collectable_spec _ _ Hc) as NoRef.
-    pose proof (inv_refs st I) as R0. destruct R0 as [RA RB RN].
-    destruct (alookup (refs (cc st)) c0) as [[w k]|] eqn:Er.
-    - destruct (cleanup_spec (cc st) c0 w k (inv_refs st I) Er) as [S1 [S2 [S3 S4]]]. cbn zeta in *.
-      pose proof (RA _ _ _ Er) as Lc.
-      apply collect_inv; auto.
-      + intros x y r L. rewrite S1 in L. destruct ((x =? w) && (y =? k)) eqn:E; [discriminate|].
-        split; [exact L|]. intros ->. pose proof (RB _ _ _ L) as Er2. rewrite Er in Er2. inversion Er2. subst.
-        rewrite !Z.eqb_refl in E. discriminate.
-      + intros x y r L Nr. rewrite S1. destruct ((x =? w) && (y =? k)) eqn:E; [|exact L].
-        apply andb_true_iff in E. destruct E as [E1 E2]. apply Z.eqb_eq in E1, E2. subst. congruence.
-      + intros x. destruct (S3 x) as [E|[-> E]]; auto.
-      + split.
-        * intros r x y Hr. rewrite S2 in Hr. destruct (c0 =? r) eqn:E; [discriminate|].
-          pose proof (RA _ _ _ Hr) as L. rewrite S1. destruct ((x =? w) && (y =? k)) eqn:E2; [|exact L].
-          apply andb_true_iff in E2. destruct E2 as [E1 E2]. apply Z.eqb_eq in E1, E2. subst.
-          rewrite Lc in L. inversion L. subst. rewrite Z.eqb_refl in E. discriminate.
-        * intros x y r L. rewrite S1 in L. destruct ((x =? w) && (y =? k)) eqn:E; [discriminate|].
-          rewrite S2. destruct (c0 =? r) eqn:E2; [|apply RB; exact L].
-          apply Z.eqb_eq in E2. subst r. pose proof (RB _ _ _ L) as Er2. rewrite Er in Er2. inversion Er2. subst.
-          rewrite !Z.eqb_refl in E. discriminate.
-        * exact S4.
-    - rewrite (cleanup_absent _ _ Er).
-      apply collect_inv; auto.
-      + intros x y r L. split; [exact L|]. intros ->. pose proof (RB _ _ _ L) as Er2. congruence.
-      + apply (inv_refs st I).
-  Qed.
-
-  Lemma collect_step_inv st c0 :
-    Inv st -> collectable C st c0 = true ->
-    Inv (State (cleanup (cc st) c0) (remove_canvas C (heap st) c0) (next st) (ver st)).
-  Proof.
-    intros I Hc. pose proof (collect_entry_inv st c0 I Hc) as I1.
-    unfold cleanup.
-    destruct (invalidate_all_total (S (length (deps (cleanup_entry (cc st) c0)))) (cleanup_popped (cc st) c0)
-                (cleanup_entry (cc st) c0) ltac:(lia)) as [c2 [E _]].
-    rewrite E. destruct (invalidate_all_spec _ _ _ _ E) as [P [_ R]].
-    exact (shrink_inv _ c2 I1 P (R (inv_refs _ I1))).
-  Qed.
-
-  (* ================= every operation keeps the invariant ================= *)
-  Lemma Inv_cleared st : Inv st -> Inv (State empty_cache (heap st) (next st) (ver st)).
-  Proof.
-    intros I. split; cbn [cc heap next ver].
-    - intros w k c L. discriminate.
-    - split; try discriminate. intros w. constructor.
-    - apply (inv_ids st I).
-    - apply (inv_nodup st I).
-    - intros cv [_ L]. discriminate.
-    - intros cv [_ L]. discriminate.
-  Qed.
-
-  Lemma Inv_init : Inv init.
-  Proof.
-    split; cbn.
-    - intros w k c L. discriminate.
-    - split; try discriminate. intros w. constructor.
-    - intros cv [].
-    - constructor.
-    - intros cv [[] _].
-    - intros cv [[] _].
-  Qed.
-
-  Lemma step_inv n st o : Inv st -> Inv (fst (step n st o)).
-  Proof.
-    intros I. destruct o as [w k|w k|w v|c|]; cbn [Cache.step].
-    - destruct (crender n st w k) as [[cv st']|] eqn:E; cbn [fst]; [|exact I].
-      exact (proj1 (crender_ok n _ _ _ _ _ I E)).
-    - exact I.
-    - destruct (invalidate_total (S (length (deps (cc st)))) (cc st) w ltac:(lia)) as [c' [E _]].
-      rewrite E. cbn [fst]. destruct (invalidate_spec _ _ _ _ E) as [P [Wn R]].
-      apply (mutate_inv st w v c' I P Wn). apply R. apply (inv_refs st I).
-    - destruct (collectable C st c) eqn:E; cbn [fst]; [|exact I]. apply collect_step_inv; assumption.
-    - cbn [fst]. apply Inv_cleared. exact I.
-  Qed.
-
-  Lemma run_inv n ops : forall st, Inv st -> Inv (run n st ops).
-  Proof.
-    induction ops as [|o ops IH]; intros st I; cbn [Cache.run fold_left]; [exact I|].
-    apply IH. apply step_inv. exact I.
-  Qed.
-
 
   (* ================= enough fuel: more than the rank of the widget ================= *)
   Lemma run_fresh_total vr m r p :
@@ -585,182 +129,12 @@ Section Proofs.
     intros x kx Lx. apply IH. lia.
   Qed.
 
-  Lemma run_prog_total m r p : forall st,
-    (forall st w k, Inv st -> (rank w < r)%nat -> exists cv st', crender m st w k = Some (cv, st')) ->
-    Inv st -> prog_ranked r rank p -> exists c kids st', run_prog (crender m) p st = Some (c, kids, st').
-  Proof.
-    induction p as [c|x k cont IH]; intros st T I PR; cbn [Cache.run_prog]; [eauto|].
-    destruct PR as [P1 P2]. destruct (T st x k I P1) as [cx [st1 E]]. rewrite E.
-    destruct (crender_ok m _ _ _ _ _ I E) as [I1 _].
-    destruct (IH (c_content cx) st1 T I1 (P2 _)) as [c [kids [st2 E2]]]. rewrite E2. eauto.
-  Qed.
-
-  Lemma crender_total : forall n st w k, Inv st -> (rank w < n)%nat -> exists cv st', crender n st w k = Some (cv, st').
-  Proof.
-    induction n as [|m IH]; intros st w k I L; [lia|]. cbn [Cache.crender].
-    destruct (fetch st w k) as [cv|]; [eauto|].
-    destruct (run_prog_total m (rank w) (body w (version (ver st) w) k) st) as [c [kids [st1 E]]]; auto.
-    - intros st0 x kx I0 Lx. apply IH; [exact I0|lia].
-    - rewrite E. eauto.
-  Qed.
-
-  (* ================= the property theorems ================= *)
-  (* what the cache hands out is what a render without any cache produces, now *)
-  Lemma cached_render_is_fresh n m st w k cv st' x :
-    Inv st -> crender n st w k = Some (cv, st') -> fresh (ver st) m w k = Some x -> c_content cv = x.
-  Proof.
-    intros I E F. destruct (crender_ok n _ _ _ _ _ I E) as [I' [_ [Cc [Ew [Ek [V _]]]]]].
-    apply (inv_fresh st' I' cv Cc m). rewrite Ew, Ek, V. exact F.
-  Qed.
-
-  Lemma cache_invisible_lemma n m1 m2 ops w k cv st1 cv' st2 :
-    let st := run n init ops in
-    crender m1 st w k = Some (cv, st1) ->
-    crender m2 (State empty_cache (heap st) (next st) (ver st)) w k = Some (cv', st2) ->
-    c_content cv = c_content cv'.
-  Proof.
-    cbn zeta. intros E1 E2.
-    pose proof (run_inv n ops init Inv_init) as I.
-    destruct (fresh_total (ver (run n init ops)) (S (rank w)) w k ltac:(lia)) as [x F].
-    rewrite (cached_render_is_fresh _ _ _ _ _ _ _ _ I E1 F).
-    symmetry. apply (cached_render_is_fresh _ (S (rank w)) _ _ _ _ _ _ (Inv_cleared _ I) E2). exact F.
-  Qed.
-
-  (* rows *)
-  Notation crows := (crows C rbody rows_of rcache).
-  Notation frows := (frows rbody).
-  Hypothesis rows_consistent :
-    forall vr n m w k x r, fresh vr n w k = Some x -> frows vr m w k = Some r -> rows_of x = r.
-
-  Lemma rows_lemma st : Inv st -> forall n m w k r r',
-    crows n st w k = Some r -> frows (ver st) m w k = Some r' -> r = r'.
-  Proof.
-    intros I. induction n as [|n IH]; intros m w k r r' H1 H2; [discriminate|].
-    cbn [Cache.crows] in H1.
-    destruct (if rcache w then fetch st w k else None) as [cv|] eqn:F.
-    - destruct (rcache w); [|discriminate].
-      destruct (fetch_some _ _ _ _ I F) as [Cc [Ew Ek]].
-      destruct (fresh_total (ver st) (S (rank w)) w k ltac:(lia)) as [x Fx].
-      inversion H1. subst r. rewrite (inv_fresh st I cv Cc (S (rank w)) x); [|rewrite Ew, Ek; exact Fx].
-      eapply rows_consistent; eauto.
-    - destruct m as [|m]; [discriminate|]. cbn [Cache.frows] in H2.
-      revert H1 H2. generalize (rbody w (version (ver st) w) k). intros p. revert r r'.
-      induction p as [z|x kx cont IHp]; intros r r' H1 H2; cbn [run_rows] in *.
-      + congruence.
-      + destruct (crows n st x kx) as [r1|] eqn:E1; [|discriminate].
-        destruct (frows (ver st) m x kx) as [r2|] eqn:E2; [|discriminate].
-        rewrite (IH _ _ _ _ _ E1 E2) in H1. eapply IHp; eauto.
-  Qed.
-
-  (* canvases are never written to: a live canvas is the record that was created under its id *)
-  Definition HeapStable (a b : state) : Prop :=
-    (forall cv, In cv (heap b) -> In cv (heap a) \/ next a <= c_id cv) /\ next a <= next b.
-
-  Lemma HeapStable_refl a : HeapStable a a.
-  Proof. split; [auto|lia]. Qed.
-
-  Lemma HeapStable_trans a b c : HeapStable a b -> HeapStable b c -> HeapStable a c.
-  Proof.
-    intros [A1 A2] [B1 B2]. split; [|lia]. intros cv Hc. destruct (B1 _ Hc) as [Hb|Hb].
-    - destruct (A1 _ Hb); auto.
-    - right. lia.
-  Qed.
-
-  Lemma run_prog_stable n : (forall st w k cv st', crender n st w k = Some (cv, st') -> HeapStable st st') ->
-    forall p st c kids st', run_prog (crender n) p st = Some (c, kids, st') -> HeapStable st st'.
-  Proof.
-    intros RO. induction p as [c0|x k cont IH]; intros st c kids st' H; cbn [Cache.run_prog] in H.
-    - inversion H. apply HeapStable_refl.
-    - destruct (crender n st x k) as [[cx st1]|] eqn:E1; [|discriminate].
-      destruct (run_prog (crender n) (cont (c_content cx)) st1) as [[[c1 kids1] st2]|] eqn:E2; [|discriminate].
-      inversion H. subst. eapply HeapStable_trans; eauto.
-  Qed.
-
-  Lemma crender_stable : forall n st w k cv st', crender n st w k = Some (cv, st') -> HeapStable st st'.
-  Proof.
-    induction n as [|m IH]; intros st w k cv st' H; [discriminate|]. cbn [Cache.crender] in H.
-    destruct (fetch st w k) as [cv0|].
-    - inversion H. apply HeapStable_refl.
-    - destruct (run_prog (crender m) (body w (version (ver st) w) k) st) as [[[c kids] st1]|] eqn:R; [|discriminate].
-      inversion H. subst. pose proof (run_prog_stable m IH _ _ _ _ _ R) as [A1 A2].
-      split; cbn [heap next]; [|lia]. intros a [<-|Ha]; [right; cbn; lia|auto].
-  Qed.
-
-  Lemma step_stable n st o : HeapStable st (fst (step n st o)).
-  Proof.
-    destruct o as [w k|w k|w v|c|]; cbn [Cache.step]; try apply HeapStable_refl.
-    - destruct (crender n st w k) as [[cv st']|] eqn:E; cbn [fst]; [|apply HeapStable_refl].
-      eapply crender_stable; eauto.
-    - destruct (invalidate _ _ _); cbn [fst]; split; cbn [heap next]; auto; lia.
-    - destruct (collectable C st c); cbn [fst]; [|apply HeapStable_refl].
-      split; cbn [heap next]; [|lia]. intros cv Hc. apply in_remove_canvas in Hc. tauto.
-    - cbn [fst]. split; cbn [heap next]; auto; lia.
-  Qed.
-
-  Lemma run_stable n ops : forall st, HeapStable st (run n st ops).
-  Proof.
-    induction ops as [|o ops IH]; intros st; cbn [Cache.run fold_left]; [apply HeapStable_refl|].
-    eapply HeapStable_trans; [apply step_stable|apply IH].
-  Qed.
-
-  Lemma never_mutated_lemma n ops st cv cv' :
-    Inv st -> In cv (heap st) -> In cv' (heap (run n st ops)) -> c_id cv' = c_id cv -> cv' = cv.
-  Proof.
-    intros I Hin Hin' E. destruct (run_stable n ops st) as [A _]. destruct (A _ Hin') as [H|H].
-    - eapply heap_unique; eauto using inv_nodup.
-    - pose proof (inv_ids st I _ Hin). lia.
-  Qed.
-
-
-  (* ================= statements over all histories (used by Properties/C06.v) ================= *)
-  Lemma fresh_invariant_lemma n ops :
-    let st := run n init ops in
-    forall cv, cached st cv -> forall m x, fresh (ver st) m (c_w cv) (c_k cv) = Some x -> c_content cv = x.
-  Proof. cbn zeta. apply inv_fresh. apply run_inv. apply Inv_init. Qed.
-
-  Lemma deps_complete_lemma n ops :
-    let st := run n init ops in
-    forall cv, cached st cv ->
-      trace st (c_w cv) (c_children cv) (body (c_w cv) (version (ver st) (c_w cv)) (c_k cv)).
-  Proof. cbn zeta. apply inv_trace. apply run_inv. apply Inv_init. Qed.
-
-  Lemma render_equals_fresh_lemma n ops m m' w k cv st1 x :
-    let st := run n init ops in
-    crender m st w k = Some (cv, st1) -> fresh (ver st) m' w k = Some x -> c_content cv = x.
-  Proof. cbn zeta. apply cached_render_is_fresh. apply run_inv. apply Inv_init. Qed.
-
-  Lemma render_total_lemma n ops m w k :
-    (rank w < m)%nat -> exists cv st', crender m (run n init ops) w k = Some (cv, st').
-  Proof. intros L. apply crender_total; [|exact L]. apply run_inv. apply Inv_init. Qed.
-
   Lemma fresh_total_lemma vr m w k : (rank w < m)%nat -> exists x, fresh vr m w k = Some x.
   Proof. apply fresh_total. Qed.
-
-  Lemma rows_ok_lemma n ops m m' w k r r' :
-    let st := run n init ops in
-    crows m st w k = Some r -> frows (ver st) m' w k = Some r' -> r = r'.
-  Proof. cbn zeta. apply rows_lemma. apply run_inv. apply Inv_init. Qed.
-
-  Lemma never_mutated_history n ops1 ops2 cv cv' :
-    let st := run n init ops1 in
-    In cv (heap st) -> In cv' (heap (run n st ops2)) -> c_id cv' = c_id cv -> cv' = cv.
-  Proof. cbn zeta. apply never_mutated_lemma. apply run_inv. apply Inv_init. Qed.
 
   Lemma mutate_fuel_lemma n (st : state) w v : snd (step n st (Mutate w v)) = ODone C.
   Proof.
     cbn [Cache.step]. destruct (invalidate_total (S (length (deps (cc st)))) (cc st) w ltac:(lia)) as [c' [E _]].
     rewrite E. reflexivity.
   Qed.
-
-  Lemma change_visible_lemma n ops d v :
-    let st := run n init (ops ++ [Mutate d v]) in
-    version (ver st) d = v /\
-    forall m m' w k cv st1 x, crender m st w k = Some (cv, st1) -> fresh (ver st) m' w k = Some x -> c_content cv = x.
-  Proof.
-    cbn zeta. split.
-    - unfold Cache.run. rewrite fold_left_app. cbn [fold_left Cache.step].
-      destruct (invalidate _ _ _); cbn [fst ver]; rewrite version_aset, Z.eqb_refl; reflexivity.
-    - intros m m' w k cv st1 x. apply render_equals_fresh_lemma.
-  Qed.
-
 End Proofs.
